@@ -101,8 +101,13 @@ class Ocp(Stage):
             return self
         
     def transcribe(self,**kwargs):
-        self._untranscribe()
-        self._transcribe(**kwargs)
+        if self._is_original:
+            # Like any query, work on a copy: the declaration itself is never transcribed in place
+            self._set_transcribed(False)
+            self._transcribed
+        else:
+            self._untranscribe()
+            self._transcribe(**kwargs)
 
     def _transcribe(self,**kwargs):
         if not self.is_transcribed:
